@@ -758,12 +758,16 @@ def _build_result_schema(result_type: object) -> pa.Schema:
     if result_type is type(None) or result_type is None:
         return _EMPTY_SCHEMA
 
-    # ArrowSerializableDataclass — serialize whole dataclass as binary blob
-    base = _unwrap_annotated(result_type)
+    inner, is_nullable = _is_optional_type(result_type)
+
+    # ArrowSerializableDataclass — serialize whole dataclass as binary blob.
+    # Optional is unwrapped first (as _build_params_schema does): the value
+    # travels as IPC bytes either way, so ``-> MyData | None`` must declare a
+    # binary column, not the struct _infer_arrow_type would pick.
+    base = _unwrap_annotated(inner)
     if isinstance(base, type) and issubclass(base, ArrowSerializableDataclass):
         return pa.schema([pa.field("result", pa.binary())])
 
-    inner, is_nullable = _is_optional_type(result_type)
     arrow_type = _infer_arrow_type(inner)  # handles Annotated natively
     return pa.schema([pa.field("result", arrow_type, nullable=is_nullable)])
 
